@@ -132,7 +132,11 @@ SEMI_HOLE_1 = """let trivia = trivia_util::get_stmt_trailing_trivia(stmt.to_owne
                                 .filter(|token| trivia_util::trivia_is_comment(token))
                                 .flat_map(|x| {
                                     // Prepend a single space beforehand
-                                    vec![Token::new(TokenType::spaces(1)), x.to_owned()]
+                                    // The comment itself is formatted like any other (trailing whitespace, line endings)
+                                    vec![
+                                        Token::new(TokenType::spaces(1)),
+                                        format_token(&ctx, x, FormatTokenType::Token, shape).0,
+                                    ]
                                 }),
                         )
                         .chain(std::iter::once(create_newline_trivia(&ctx)))
@@ -150,7 +154,11 @@ SEMI_HOLE_2 = """let trivia = last_stmt
                                 .filter(|token| trivia_util::trivia_is_comment(token))
                                 .flat_map(|x| {
                                     // Prepend a single space beforehand
-                                    vec![Token::new(TokenType::spaces(1)), x.to_owned()]
+                                    // The comment itself is formatted like any other (trailing whitespace, line endings)
+                                    vec![
+                                        Token::new(TokenType::spaces(1)),
+                                        format_token(&ctx, x, FormatTokenType::Token, shape).0,
+                                    ]
                                 }),
                         )
                         .chain(std::iter::once(create_newline_trivia(&ctx)))
